@@ -23,7 +23,7 @@ fn spec(t: Tier) -> Spec {
     Spec {
         id: "C12",
         level: "exploration",
-        rule: format!("pattern = sequence of atoms from {:?} (literals incl. regex metacharacters, * ?, backslash escapes, well-formed bracket expressions with negation/range/class/leading ]/escaped ]/inner [, '/' inside a bracket, stray [ ] !); subject = every non-empty string of <= k characters over {:?}. -lname: one directory of symbolic links whose targets are all the subjects; -name: files named by the '/'-free subjects; -path: the same files, pattern prefixed by the literal directory; -ilname/-iname/-ipath with case folding. Slices: {}; plus every pattern of <= 2 atoms given to -iname and to -name in the same expression; plus -name/-iname on starting points spelled N, ./N, N/, N//, N/., N/.., ., .., N/./., N/../N, N/./, N/.//, N/../, ./, .//, ../ (subject = last path component as given). Tree slice: a directory tree whose paths continue one another's text (T/ab, T/ab/x, T/abc/g, T/abd, T/a/b/c, 'T/a b/y', T/AB/x) walked as one and as several starting points in different orders: -path/-wholename/-ipath/-iwholename with every path, every proper prefix + *, * + every suffix and every path with one character replaced by ?, -name/-iname likewise on the names, all evaluated on every entry in turn (oracle fnmatch). Environment slice (binary): nine patterns x -name/-iname/-path/-lname on dot-files with POSIXLY_CORRECT set (also empty), LC_ALL=en_US.UTF-8, LANG=C — the selection is fnmatch's without FNM_PERIOD whatever the environment; -lname on /proc/self/cwd and /proc/self/exe (lstat size 0). Long slice: runs of 1..14 `?` (alone, after/before `*`, between literals), 1..14 brackets, two/three stars separated by brackets, `?` or literals, literal patterns of 15..240 bytes, against subjects of 1..14, 20, 40, 100, 140, 160, 200, 240 bytes, for -name, -iname, -path, -lname, -ilname (oracle glibc fnmatch, plus the reference matcher up to 40 bytes). For each (pattern, subject) the real find's selection must equal fnmatch(): glibc fnmatch(3) (C locale, flags 0 / FNM_CASEFOLD) and the reference matcher written from the statement must agree, otherwise the pair is counted as oracle-undecided and not judged. evaluation = (primary, pattern, subject); non-trivial = pattern containing a special atom (not only literals)", ATOMS, SUBJ.iter().map(|c| (*c as char).to_string()).collect::<Vec<_>>(), t.pick("-lname atoms<=3 x k<=3 and 12-atom sub-alphabet<=3 x k<=3; other primaries atoms<=2 x k<=3", "-lname atoms<=4 x k<=3, atoms<=3 x k<=4, sub-alphabet<=5 x k<=3; other five primaries atoms<=3 x k<=3")),
+        rule: format!("pattern = sequence of atoms from {:?} (literals incl. regex metacharacters, * ?, backslash escapes, well-formed bracket expressions with negation/range/class/leading ]/escaped ]/inner [, '/' inside a bracket, stray [ ] !); subject = every non-empty string of <= k characters over {:?}. -lname: one directory of symbolic links whose targets are all the subjects; -name: files named by the '/'-free subjects; -path: the same files, pattern prefixed by the literal directory; -ilname/-iname/-ipath with case folding. Slices: {}; plus every pattern of <= 2 atoms given to -iname and to -name in the same expression; plus -name/-iname on starting points spelled N, ./N, N/, N//, N/., N/.., ., .., N/./., N/../N, N/./, N/.//, N/../, ./, .//, ../ (subject = last path component as given). Tree slice: a directory tree whose paths continue one another's text (T/ab, T/ab/x, T/abc/g, T/abd, T/a/b/c, 'T/a b/y', T/AB/x) walked as one and as several starting points in different orders: -path/-wholename/-ipath/-iwholename with every path, every proper prefix + *, * + every suffix and every path with one character replaced by ?, -name/-iname likewise on the names, all evaluated on every entry in turn (oracle fnmatch). Unreadable-link slice (as uid 65534): a link in a directory of mode 0444 cannot be read; links in directories whose paths continue that directory's text, and in later starting points, are still matched. Environment slice (binary): nine patterns x -name/-iname/-path/-lname on dot-files with POSIXLY_CORRECT set (also empty), LC_ALL=en_US.UTF-8, LANG=C — the selection is fnmatch's without FNM_PERIOD whatever the environment; -lname on /proc/self/cwd and /proc/self/exe (lstat size 0). Long slice: runs of 1..14 `?` (alone, after/before `*`, between literals), 1..14 brackets, two/three stars separated by brackets, `?` or literals, literal patterns of 15..240 bytes, against subjects of 1..14, 20, 40, 100, 140, 160, 200, 240 bytes, for -name, -iname, -path, -lname, -ilname (oracle glibc fnmatch, plus the reference matcher up to 40 bytes). For each (pattern, subject) the real find's selection must equal fnmatch(): glibc fnmatch(3) (C locale, flags 0 / FNM_CASEFOLD) and the reference matcher written from the statement must agree, otherwise the pair is counted as oracle-undecided and not judged. evaluation = (primary, pattern, subject); non-trivial = pattern containing a special atom (not only literals)", ATOMS, SUBJ.iter().map(|c| (*c as char).to_string()).collect::<Vec<_>>(), t.pick("-lname atoms<=3 x k<=3 and 12-atom sub-alphabet<=3 x k<=3; other primaries atoms<=2 x k<=3", "-lname atoms<=4 x k<=3, atoms<=3 x k<=4, sub-alphabet<=5 x k<=3; other five primaries atoms<=3 x k<=3")),
         bound: json!({"atoms": ATOMS.len(), "sub_atoms": SUB_ATOMS.len(), "subject_alphabet": SUBJ.len()}),
         assumptions: vec![
             "ASCII only (glibc's C locale is bytewise)".into(),
@@ -559,6 +559,9 @@ fn run(ctx: &mut Ctx) {
     if ctx.shard == 2 % ctx.nshards {
         tree_history_slice(ctx);
     }
+    if ctx.shard == 3 % ctx.nshards {
+        unreadable_link_slice(ctx);
+    }
     long_slice(ctx);
     // mixed slice first (patterns of <= 2 atoms, subjects <= 2|3)
     {
@@ -784,6 +787,46 @@ fn tree_history_slice(ctx: &mut Ctx) {
     let _ = crate::sandbox::force_remove(&t);
 }
 
+/// -lname when one link cannot be read: as uid 65534, a link inside a directory that can be listed but
+/// not searched (mode 0444) gives a diagnostic and is false; links met afterwards — in directories
+/// whose paths continue the text of the failed one (T/no2 after T/no), and in later starting points —
+/// are still matched on their own contents.
+fn unreadable_link_slice(ctx: &mut Ctx) {
+    use std::os::unix::fs::PermissionsExt;
+    let sbx = ctx.sbx.clone();
+    let base = sbx.join("T2");
+    let _ = crate::sandbox::force_remove(&base);
+    for d in ["no", "no2", "no/sub", "other", "n"] {
+        std::fs::create_dir_all(base.join(d)).unwrap();
+    }
+    for (t, p) in [("target-a", "no/la"), ("target-b", "no2/lb"), ("target-c", "other/lc"), ("target-d", "n/ld"), ("else", "no2/le")] {
+        std::os::unix::fs::symlink(t, base.join(p)).unwrap();
+    }
+    let _ = std::fs::set_permissions(&sbx, std::fs::Permissions::from_mode(0o755));
+    let _ = std::fs::set_permissions(base.join("no"), std::fs::Permissions::from_mode(0o444));
+    for (roots, want) in [(vec!["T2/no", "T2/no2", "T2/other", "T2/n"], vec!["T2/n/ld", "T2/no2/lb", "T2/other/lc"]), (vec!["T2"], vec!["T2/n/ld", "T2/no2/lb", "T2/other/lc"]), (vec!["T2/no2", "T2/other"], vec!["T2/no2/lb", "T2/other/lc"])] {
+        for prim in ["-lname", "-ilname"] {
+            let mut args: Vec<&str> = roots.clone();
+            args.extend(["-sorted", prim, if prim == "-lname" { "target*" } else { "TARGET*" }]);
+            let got = crate::props::c02::run_find_as_nobody(&args, &sbx);
+            ctx.rep.evaluations += 1;
+            ctx.rep.nontrivial += 1;
+            ctx.rep.count("unreadable_link_runs", 1);
+            let mut lines: Vec<String> = String::from_utf8_lossy(&got.out).lines().map(String::from).collect();
+            lines.sort();
+            if got.panicked() || lines != want {
+                ctx.rep.violation(
+                    &format!("C12 {prim}: after a link that could not be read, later links are not matched on their own contents"),
+                    format!("as uid 65534, T2/no has mode 0444: find {:?} printed {:?}, expected {:?}; status {:?}; stderr {:?}", args, lines, want, got.code, String::from_utf8_lossy(&got.err).lines().take(3).collect::<Vec<_>>()),
+                    json!({"prop":"C12","mode":"unreadable_link","k":0}),
+                );
+            }
+        }
+    }
+    let _ = std::fs::set_permissions(base.join("no"), std::fs::Permissions::from_mode(0o755));
+    let _ = crate::sandbox::force_remove(&base);
+}
+
 fn xok_take() -> u64 {
     XOK.with(|x| x.replace(0))
 }
@@ -794,6 +837,10 @@ fn replay(case: &Value, ctx: &mut Ctx) -> Option<String> {
     let mode = Mode::from(case["mode"].as_str()?).unwrap_or(Mode::Name);
     if case["mode"] == "roots" {
         roots_slice(ctx);
+        return ctx.rep.violations.keys().next().cloned();
+    }
+    if case["mode"] == "unreadable_link" {
+        unreadable_link_slice(ctx);
         return ctx.rep.violations.keys().next().cloned();
     }
     if case["mode"] == "tree" {
